@@ -141,7 +141,15 @@ impl SubCheck for RSub {
             tokens: false,
         };
         install_picker(&c.exec);
-        let built = build(&bench, &c.exec, &BuildOpts::default(), c.start);
+        // a recording clock (always Synchronized): the order of synchronize() calls is part of the history
+        let opts = BuildOpts {
+            clock: Some(ClockScript {
+                answers: vec![],
+                tolerance: None,
+            }),
+            ..Default::default()
+        };
+        let built = build(&bench, &c.exec, &opts, c.start);
         let shared = built.shared.clone();
         let Some(mut w) = built.world else {
             uninstall_picker();
@@ -285,6 +293,41 @@ impl SubCheck for RSub {
         let mut fired: HashMap<u64, Vec<i64>> = HashMap::new();
         let mut last_handler_time = i64::MIN;
         let mut prev_after = c.start;
+        // clock protocol under concurrency (C18): synchronize() arguments never decrease, and
+        // the handlers of a time t run after a synchronize(t) of the same call
+        let mut last_sync = i64::MIN;
+        for (label, _tb, _ta, recs) in &calls {
+            let mut synced_in_call: Vec<i64> = Vec::new();
+            let mut ordered: Vec<&Rec> = recs.iter().collect();
+            ordered.sort_by_key(|r| r.stamp());
+            for r in ordered {
+                match r {
+                    Rec::Sync { time, .. } => {
+                        if *time < last_sync {
+                            return Verdict::Fail {
+                                signature: "C18/synchronize-time-decreased".into(),
+                                clause: "synchronize-time-decreased".into(),
+                                detail: format!("{}: synchronize({}) was called after synchronize({})", label, time, last_sync),
+                                props: &["C18", "C08", "C01"],
+                            };
+                        }
+                        last_sync = *time;
+                        synced_in_call.push(*time);
+                    }
+                    Rec::Begin { time, id, .. } => {
+                        if !synced_in_call.contains(time) {
+                            return Verdict::Fail {
+                                signature: "C18/handler-before-synchronize".into(),
+                                clause: "handler-before-synchronize".into(),
+                                detail: format!("{}: a handler (msg {:x}) ran at time {} before synchronize({}) was called in this step", label, id, time, time),
+                                props: &["C18", "C08"],
+                            };
+                        }
+                    }
+                    _ => {}
+                }
+            }
+        }
         for (label, tb, ta, recs) in &calls {
             if *tb < prev_after || *ta < *tb {
                 return rfail(
